@@ -5,7 +5,11 @@
 //!   kind 0: as_seekable_decoder (borrowed cursor), 1: into_seekable_decoder (owned cursor),
 //!        2: the Vec-backed coder itself (seek truncates),
 //!        3: from_reversed_compressed over the reversed words, positions mapped to len - pos
-//!           (ops 3 and 4 use the reversed coordinates).
+//!           (ops 3 and 4 use the reversed coordinates),
+//!        4: kind 3 converted back with into_reversed(): a plain cursor over ALL words (the
+//!           words of the state lie beyond the cursor), original coordinates,
+//!        5: kind 1 converted with into_reversed(): reversed cursor over the bulk words only,
+//!           reversed coordinates relative to the bulk length.
 //!   ops: 1 i      seek(snapshot i)          -> 0 | -6
 //!        2 m      decode_symbol(model m)    -> sym
 //!        3 p s    seek((p, s))              -> 0 | -6
@@ -79,6 +83,18 @@ macro_rules! seek_impl {
                 0 => dec_loop!(coder.as_seekable_decoder(), r, out, models, snaps, $Pr, $S, $plist),
                 1 => dec_loop!(coder.into_seekable_decoder(), r, out, models, snaps, $Pr, $S, $plist),
                 2 => dec_loop!(coder, r, out, models, snaps, $Pr, $S, $plist),
+                4 => {
+                    let mut compressed = coder.into_compressed().unwrap();
+                    compressed.reverse();
+                    let dec = AnsCoder::<$W, $S, _>::from_reversed_compressed(compressed).unwrap();
+                    dec_loop!(dec.into_reversed(), r, out, models, snaps, $Pr, $S, $plist)
+                }
+                5 => {
+                    let total = snaps[n].0;
+                    let rsnaps: Vec<(usize, $S)> = snaps.iter().map(|&(p, s)| (total - p, s)).collect();
+                    let dec = coder.into_seekable_decoder().into_reversed();
+                    dec_loop!(dec, r, out, models, rsnaps, $Pr, $S, $plist)
+                }
                 _ => {
                     // reversed backend: the compressed words are reversed so that they are read
                     // front to back; positions are mapped to `len - pos` (see `Seek::seek` docs)
